@@ -4,6 +4,8 @@ CONSTANTS
   MaxFaults = 2
   DeadWriterStaysDead = TRUE
   KillUpdaterOnSaveFail = FALSE
+  PipeCap = 2
+  KillDropsReceiver = TRUE
 INVARIANT DiskIsSomeCommit
 CONSTRAINT Bound
 CHECK_DEADLOCK FALSE
